@@ -37,6 +37,7 @@ type c17Cfg struct {
 	Via    string `json:"via"`
 	Kernel string `json:"kernel"`
 	Rep    int    `json:"rep"`
+	Prior  string `json:"prior"` // fresh | stale (the directory already holds longer files under the names Create will write)
 }
 
 type c17Set struct {
@@ -163,51 +164,70 @@ func runC17(args []string) error {
 		for _, n := range order {
 			files = append(files, spell(n))
 		}
-		before, _ := sandbox.Take(root)
 		errText := ""
-		if cfg.Via == "lib" {
-			os.Chdir(wd)
-			func() {
-				defer func() {
-					if r := recover(); r != nil {
-						errText = fmt.Sprint("panic: ", r)
+		doCreate := func() {
+			if cfg.Via == "lib" {
+				os.Chdir(wd)
+				func() {
+					defer func() {
+						if r := recover(); r != nil {
+							errText = fmt.Sprint("panic: ", r)
+						}
+					}()
+					ssse3Mu.Lock()
+					old := gf2p16.VerifSetSSSE3(cfg.Kernel == "ssse3")
+					var err error
+					if cfg.Format == "par2" {
+						err = par2.Create(index, files, par2.CreateOptions{SliceByteCount: st.s, NumParityShards: st.r, NumGoroutines: cfg.G})
+					} else {
+						err = par1.Create(index, files, par1.CreateOptions{NumParityFiles: st.r})
+					}
+					gf2p16.VerifSetSSSE3(old)
+					ssse3Mu.Unlock()
+					if err != nil {
+						errText = err.Error()
 					}
 				}()
-				ssse3Mu.Lock()
-				old := gf2p16.VerifSetSSSE3(cfg.Kernel == "ssse3")
-				var err error
+				os.Chdir(cwd0)
+			} else {
+				argv := []string{}
+				if cfg.G > 0 {
+					argv = append(argv, "-g", fmt.Sprint(cfg.G))
+				}
+				argv = append(argv, "c", "-c", fmt.Sprint(st.r))
 				if cfg.Format == "par2" {
-					err = par2.Create(index, files, par2.CreateOptions{SliceByteCount: st.s, NumParityShards: st.r, NumGoroutines: cfg.G})
-				} else {
-					err = par1.Create(index, files, par1.CreateOptions{NumParityFiles: st.r})
+					argv = append(argv, "-s", fmt.Sprint(st.s))
 				}
-				gf2p16.VerifSetSSSE3(old)
-				ssse3Mu.Unlock()
-				if err != nil {
-					errText = err.Error()
+				argv = append(argv, index)
+				argv = append(argv, files...)
+				cmd := exec.Command(*parBin, argv...)
+				cmd.Dir = wd
+				var se bytes.Buffer
+				cmd.Stderr = &se
+				cmd.Stdout = &se
+				if err := cmd.Run(); err != nil {
+					errText = err.Error() + ": " + tail(se.String(), 200)
 				}
-			}()
-			os.Chdir(cwd0)
-		} else {
-			argv := []string{}
-			if cfg.G > 0 {
-				argv = append(argv, "-g", fmt.Sprint(cfg.G))
-			}
-			argv = append(argv, "c", "-c", fmt.Sprint(st.r))
-			if cfg.Format == "par2" {
-				argv = append(argv, "-s", fmt.Sprint(st.s))
-			}
-			argv = append(argv, index)
-			argv = append(argv, files...)
-			cmd := exec.Command(*parBin, argv...)
-			cmd.Dir = wd
-			var se bytes.Buffer
-			cmd.Stderr = &se
-			cmd.Stdout = &se
-			if err := cmd.Run(); err != nil {
-				errText = err.Error() + ": " + tail(se.String(), 200)
 			}
 		}
+		if cfg.Prior == "stale" {
+			// an earlier run left LONGER files under the same names (same run, then junk appended): what Create
+			// writes now must not depend on them
+			doCreate()
+			errText = ""
+			ents, _ := ioutil.ReadDir(setdir)
+			for _, e := range ents {
+				if strings.HasPrefix(e.Name(), "out.") {
+					f, err := os.OpenFile(filepath.Join(setdir, e.Name()), os.O_APPEND|os.O_WRONLY, 0644)
+					if err == nil {
+						f.Write(bytes.Repeat([]byte("stale tail "), 100))
+						f.Close()
+					}
+				}
+			}
+		}
+		before, _ := sandbox.Take(root)
+		doCreate()
 		after, _ := sandbox.Take(root)
 		created, deleted, changed, touched := sandbox.Diff(before, after)
 		digests := map[string]string{}
@@ -228,6 +248,12 @@ func runC17(args []string) error {
 		for _, l := range [][]string{deleted, changed, touched} {
 			for _, p := range l {
 				if e, ok := after[p]; ok && e.IsDir {
+					continue
+				}
+				if _, still := after[p]; still && cfg.Prior == "stale" && strings.HasPrefix(p, prefix) && strings.HasPrefix(filepath.Base(p), "out.") {
+					b, _ := ioutil.ReadFile(filepath.Join(root, p))
+					h := sha256.Sum256(b)
+					digests[filepath.ToSlash(strings.TrimPrefix(p, prefix))] = hex.EncodeToString(h[:8]) + fmt.Sprintf(":%d", len(b))
 					continue
 				}
 				outside = append(outside, "modified:"+p)
